@@ -6,6 +6,7 @@ REQUIRED = [
     "C13.aug_lag", "C13.aug_lag_deriv_x", "C13.aug_lag_deriv_xx", "C13.aug_lag_deriv_y", "C13.bounds_dual", "C13.stat_res", "C13.bound_violation",
     "C13.cons_violation", "C13.locally_infeasible", "C13.dist", "C13.residual_value", "C13.generalised_jacobian", "C13.projection_argument",
     "C13.active_set_rule", "C13.projection_keeps_active_components_in_box", "C13.projection_identity_on_inactive", "C13.keep_rows",
+    "C13.generalised_jacobian_second_active_set", "C13.derivatives_unchanged_by_evaluation",
 ]
 META = dict(
     functions_encoded=defs.FUNCTIONS,
@@ -21,7 +22,7 @@ def tasks(tier):
     o = dict(nra=True, norm_model="exact", timeout_ms=60000)
     t = []
     its = [(["boxed"], ["eq0"], "coo"), (["lower", "upper"], ["eq0"], "csr"), (["boxed", "free"], [], "coo"), (["fixed", "boxed"], ["eq0"], "csc")]
-    fns = [(["boxed", "free"], ["eq0"], "coo"), (["lower", "fixed"], ["eq0"], "csr"), (["upper", "boxed"], [], "csc")]
+    fns = [(["boxed", "free"], ["eq0"], "coo"), (["lower", "fixed"], ["eq0"], "csr"), (["upper", "boxed"], [], "csc"), (["boxed", "lower"], ["eq0"], "csc")]
     if tier != "quick":
         its += [(["boxed", "lower"], ["eq0", "eq0"], "csr"), (["free", "upper"], ["eq0", "eq0"], "coo")]
         fns += [(["boxed", "lower"], ["eq0", "eq0"], "coo"), (["free", "fixed"], ["eq0", "eq0"], "csc")]
